@@ -140,6 +140,10 @@ func startWatchdog(curJ *int64, limit time.Duration) {
 				lastCPU = processCPU()
 			}
 			if processCPU()-lastCPU > limit || time.Since(lastChange) > 10*limit {
+				// where it is stuck goes to stderr (the runner keeps head and tail of it for the report)
+				buf := make([]byte, 1<<16)
+				buf = buf[:runtime.Stack(buf, true)]
+				fmt.Fprintf(os.Stderr, "watchdog: no progress in run j=%d (cpu %v, wall %v since the last heartbeat)\n%s\n", *curJ, processCPU()-lastCPU, time.Since(lastChange), buf)
 				fmt.Printf("{\"t\":\"hang\",\"j\":%d}\n", *curJ)
 				os.Exit(3)
 			}
@@ -438,6 +442,7 @@ func runnerMain(t *testing.T) {
 		viols  []*Trace
 		fatals []string
 		hangs  []int
+		killed int
 	}
 	results := make([]wres, nw)
 	var wg sync.WaitGroup
@@ -528,6 +533,20 @@ func runnerMain(t *testing.T) {
 					mu.Unlock()
 					return
 				}
+				if !hang && code == -1 && strings.TrimSpace(se.String()) == "" {
+					// killed from outside (the kernel's out-of-memory killer is the usual sender): no Go
+					// runtime message, no watchdog report. That is trouble of the machine, never a
+					// verdict on otr3 - the run is noted and skipped.
+					mu.Lock()
+					results[i].killed++
+					mu.Unlock()
+					fmt.Printf("NOTE: worker %d was killed from outside in run j=%d (no runtime message, no watchdog report); not counted\n", i, lastJ)
+					startJ = lastJ + nw
+					if time.Since(begin) > time.Duration(budget)*time.Second {
+						return
+					}
+					continue
+				}
 				mu.Lock()
 				if hang {
 					results[i].hangs = append(results[i].hangs, lastJ)
@@ -566,6 +585,9 @@ func runnerMain(t *testing.T) {
 			}
 		}
 		viols = append(viols, results[i].viols...)
+		if results[i].killed > 0 {
+			total.Probes["workers_killed_from_outside"] += results[i].killed
+		}
 		for _, f := range results[i].fatals {
 			parts := strings.SplitN(f, "\x00", 2)
 			j, _ := strconv.Atoi(parts[0])
